@@ -11,7 +11,7 @@ import (
 func init() {
 	register(&Check{
 		ID: "C16", Level: "exploration", QuickSecs: 150, ThoroughSecs: 1200,
-		Rule:        "grammars over {'a',\"\",[ab],.} x {?,*,+,&,!} x seq/choice up to N nodes (quick 4, thorough 5) INCLUDING repetitions with nullable bodies (\"\"*, (&'a')+, ('a'?)*), a recovery loop and left-recursive rules generated with -support-left-recursion; inputs over {a,b} up to L=2 (3); option sets {Memoize, Debug, Recover(false), AllowInvalidUTF8} (all 16 combinations quick: 8); for each the unbounded run (tick-capped) gives c = expressions evaluated, then EVERY budget n in 1..min(c,cap)+1 is run: the call returns, evaluates at most n expressions, reports 'max number of expressions parsed' (as the panic value under Recover(false)) iff the unbounded run needs more than n, and otherwise equals the unbounded observation. Non-trivial = a budget that is exhausted.",
+		Rule:        "grammars over {'a',\"\",[ab],.} x {?,*,+,&,!} x seq/choice up to N nodes (quick 4, thorough 5) INCLUDING repetitions with nullable bodies (\"\"*, (&'a')+, ('a'?)*), a recovery loop and left-recursive rules generated with -support-left-recursion; inputs over {a,b} up to L=2 (3); option sets {Memoize, Debug, Recover(false), AllowInvalidUTF8} (all 16 combinations quick: 8); for each the unbounded run (tick-capped) gives c = expressions evaluated, then EVERY budget n in 1..min(c,cap)+1 is run: the call returns, evaluates at most n expressions, reports 'max number of expressions parsed' (as the panic value under Recover(false)) iff the unbounded run needs more than n, and otherwise equals the unbounded observation; without Memoize/left recursion the unbounded count itself must equal the reference interpreter's number of expression evaluations (nothing escapes the budget). Non-trivial = a budget that is exhausted.",
 		Assumptions: []string{"E1 loader", "tick cap (loop iterations / function entries) stands in for 'never returns'"},
 		Run:         runC16,
 	})
@@ -73,6 +73,13 @@ func runC16(c *ShardCtx) {
 				c.Res.Evaluations++
 				cnt := int(base.ExprCnt)
 				runaway := base.Diverged
+				// the count itself must be right: without memoisation and left recursion every
+				// expression evaluation of the reference interpreter is one counted evaluation
+				if !runaway && !os.Memoize && !b.Flags.LeftRecursion {
+					if ref := peg.Run(gc.g, in, nil, core.RefOptions(&o0, b.Flags)); ref.Outcome == peg.OResult && ref.Evals != cnt {
+						c.Report(Violation{Desc: fmt.Sprintf("Stats.ExprCnt=%d but the parse evaluates %d expressions (reference count): evaluations escape the budget", cnt, ref.Evals), Grammar: text, Gen: gc.gen.String(), Input: string(in), InputHex: hexOf(in), Opts: optsString(&o0)}, "")
+					}
+				}
 				top := cnt
 				if runaway || top > cap {
 					top = cap
